@@ -299,7 +299,7 @@ def main():
     wall = time.time() - t0
     cov = {
         "obligations": obligations, "discharged": discharged if not a.no_lean else 0,
-        "checker_cmd": "cd lean && lake build %s && lake env lean %s%s" % (" ".join(mod.LEAN_TARGETS), mod.AUDIT,
+        "checker_cmd": "cd lean && lake build %s && lake env lean %s%s" % (" ".join(mod.LEAN_TARGETS), " && lake env lean ".join(mod.AUDIT) if isinstance(mod.AUDIT, (list, tuple)) else mod.AUDIT,
                         " && lake env leanchecker <module>" if a.tier == "thorough" else ""),
         "trusted_base": ["Lean 4.33.0 kernel", "axioms: " + ", ".join(sorted({x for v in axioms_seen.values() for x in v})) if axioms_seen else "axioms: none",
                          "tools/extract.py (translator)", "correspondence harnesses under harness/ and generators in tools/checks/%s.py" % prop.lower()]
